@@ -413,8 +413,11 @@ class GP(Optimizer):
                     # And deactivates the flag
                     sub_mother.right.flag = False
 
-            # Finally, mother's parent will be the father's node
-            sub_mother.parent = sub_father
+            # Finally, the grafted branch's parent will be the father's node
+            if flag_father:
+                sub_father.left.parent = sub_father
+            else:
+                sub_father.right.parent = sub_father
 
             # Now, for creating the mother's offspring
             # Check if it is positioned in the left
@@ -436,7 +439,7 @@ class GP(Optimizer):
             # The branch's parent will be the mother's node
             branch.parent = sub_mother
 
-        return father, mother
+        return father_offspring, mother_offspring
 
     def _update(self, space):
         """Method that wraps reproduction, crossover and mutation operators over all trees.
